@@ -7,7 +7,7 @@
 // Bounded-exhaustive space, per configuration (period, threshold, number of periods, start, timeout,
 // min_activation_height):
 //   * signalling: EVERY combination of the listed per-period bit patterns (for period 3: all 2^(3*periods)
-//     patterns); non-signalling blocks rotate through "top bits only", "bit set under wrong top bits", "version 4";
+//     patterns); non-signalling blocks rotate through "top bits only", "bit set under top bits 010 / 011 / 101 / 111", "version 4";
 //   * timestamps: four levels {start-1, start, timeout-1, timeout}; either EVERY non-decreasing 3-jump step
 //     function over the block heights, or one sequence per non-decreasing assignment of a level to the median
 //     time past of every period boundary (so "exactly reached at the boundary block" occurs for every boundary),
@@ -127,10 +127,13 @@ struct Chain {
 int32_t VersionFor(int h, bool signals)
 {
     if (signals) return VERSIONBITS_TOP_BITS | (1 << BIT) | (h % 2 ? (1 << 7) : 0);
-    switch (h % 3) {
+    switch (h % 6) {
     case 0: return VERSIONBITS_TOP_BITS | (1 << 7);        // versionbits block, other bit
-    case 1: return 0x40000000 | (1 << BIT);                // bit set, but not a versionbits version
-    default: return VERSIONBITS_LAST_OLD_BLOCK_VERSION;    // pre-versionbits
+    case 1: return 0x40000000 | (1 << BIT);                // bit set, but not a versionbits version (top bits 010)
+    case 2: return VERSIONBITS_LAST_OLD_BLOCK_VERSION;    // pre-versionbits
+    case 3: return 0x60000000 | (1 << BIT);                // bit set, top bits 011: bit 29 is set but the top-bits pattern is not 001
+    case 4: return (int32_t)(0xA0000000u | (1u << BIT));   // bit set, top bits 101 (negative version)
+    default: return (int32_t)(0xE0000000u | (1u << BIT));  // bit set, top bits 111
     }
 }
 
